@@ -55,6 +55,25 @@ def main():
         if vm.group(2) == vm.group(3):
             (cloned_vec if vm.group(2) in vec else cloned_single).add(vm.group(2))
 
+    # ALL data members of struct ASTNode (declarations before the first constructor; static members excluded) and the ones
+    # clone_ast_node assigns (`cloned->f ...`): a scalar flag that is not copied makes one construct behave differently inside
+    # every instantiated generic body
+    full = sm.group(1)
+    ctor = re.search(r"\n\s*ASTNode\(", full)
+    decl = re.sub(r"/\*.*?\*/", "", re.sub(r"//[^\n]*", "", full[:ctor.start()] if ctor else full), flags=re.S)
+    all_fields = []
+    for st in decl.split(";"):
+        st = " ".join(st.split())
+        if not st or "(" in st.split("=")[0]:
+            continue
+        lhs = st.split("=")[0].strip()
+        fmm = re.match(r"^(.*?)(\w+)$", lhs)
+        if fmm and fmm.group(1).strip() and not fmm.group(1).strip().startswith("static "):
+            all_fields.append(fmm.group(2))
+    if len(all_fields) < 100:
+        fail("too few ASTNode data members recognised (%d)" % len(all_fields))
+    clone_mentioned = sorted(set(re.findall(r"cloned->(\w+)", cbody)) & set(all_fields))
+
     # children the type substitution recurses into (for_each_child_node, or the old explicit recursion)
     fm = re.search(r"static void for_each_child_node\(ASTNode \*node, F &&fn\) \{(.*?)\n\}\n", gi, re.S)
     if fm:
@@ -80,6 +99,9 @@ def main():
            "/-- the ones clone_ast_node copies -/",
            "def clonedFields : List String := [%s]" % ", ".join(q(x) for x in sorted(cloned_single)),
            "def clonedVectors : List String := [%s]" % ", ".join(q(x) for x in sorted(cloned_vec)), "",
+           "/-- all non-static data members of struct ASTNode, and the ones clone_ast_node assigns -/",
+           "def astAllFields : List String := [%s]" % ", ".join(q(x) for x in all_fields),
+           "def cloneAssigned : List String := [%s]" % ", ".join(q(x) for x in clone_mentioned), "",
            "/-- the ones substitute_type_parameters recurses into -/",
            "def substFields : List String := [%s]" % ", ".join(q(x) for x in sorted(subst_single)),
            "def substVectors : List String := [%s]" % ", ".join(q(x) for x in sorted(subst_vec)), "",
